@@ -33,7 +33,8 @@ Section Pace.
   Definition Bounded (w t : N) : Prop := forall d, c_delay c = Some d -> t <= w + d.
 
   Definition PaceOK (V : nat -> N -> Prop) (D : list (nat * N)) (j : nat) (t : N) : Prop :=
-    exists w, WB V j w /\ w <= t /\ Trigger D j w t /\ Bounded w t /\ NoFailBetween D j w t.
+    exists w, WB V j w /\ w <= t /\ Trigger D j w t /\ Bounded w t /\ NoFailBetween D j w t
+              /\ (j = 0%nat -> t = 0).
 
   Definition Pace (s : st) : Prop :=
     forall j t, InV s j t -> (m <= j)%nat -> PaceOK (InV s) (ldones (log s)) j t.
@@ -49,8 +50,8 @@ Section Pace.
     (forall i dd, In (i, dd) D' -> In (i, dd) D \/ t <= dd) ->
     PaceOK V D j t -> PaceOK V' D' j t.
   Proof.
-    intros HV HD HD' (w & A & B & C & E & F). exists w. split; [eapply WB_mono; eauto|].
-    split; [exact B|]. split; [|split; [exact E|]].
+    intros HV HD HD' (w & A & B & C & E & F & Z). exists w. split; [eapply WB_mono; eauto|].
+    split; [exact B|]. split; [|split; [exact E|split; [|exact Z]]].
     - destruct C as [C|[(i & a & C1 & C2 & C3)|(C1 & C2)]].
       + left; exact C.
       + right; left. exists i, a. auto.
@@ -341,7 +342,7 @@ Section Pace.
   Proof.
     intros H HP Hm Hne. destruct (pend_head sm H Hne) as [a Ha].
     assert (HV : InV sm (nstarted sm) (now sm)) by (right; split; eauto).
-    destruct (HP _ _ HV Hm) as (w & A & B & C & D & E).
+    destruct (HP _ _ HV Hm) as (w & A & B & C & D & E & _).
     exists w. split; [apply WB_started; auto|]. split; [exact D|exact E].
   Qed.
 
@@ -426,7 +427,8 @@ Section Pace.
     - apply Pace_push; auto. intros _. exists (now s).
       split; [eapply WB_mono; [|exact HW]; intros; apply InV_push; auto|].
       split; [eapply wait_le; eauto|]. split; [exact HT|]. split; [exact HB|].
-      apply (NoFail_new s _ i (now s')); auto.
+      split; [apply (NoFail_new s _ i (now s')); auto|].
+      intros ->. apply (i_zero c atts s' H'). lia.
     - unfold push, nstarted. cbn [pend log lstarts flat_map app]. fold (lstarts (log s')). fold (nstarted s').
       rewrite app_length. cbn [length]. lia.
     - exact (InV_push_new s' i a).
@@ -664,7 +666,7 @@ Section Pace.
     unfold s_pace. apply forallb_forall. intros [j t] Hj. apply in_starts_o in Hj.
     unfold s_pace_one. change (m_init c atts) with m.
     destruct (Nat.ltb_spec j m) as [Hlt|Hge]; [reflexivity|].
-    destruct (HPL j t Hj Hge) as (w & HW & Hle & HT & HB & HN).
+    destruct (HPL j t Hj Hge) as (w & HW & Hle & HT & HB & HN & _).
     rewrite (wait_began_eq res td lg j w HF Hge HW).
     rewrite (nofail_bool res td lg j w t HF HN), (bounded_bool w t HB), !andb_true_r.
     rewrite andb_true_iff. split; [apply N.leb_le; exact Hle|].
